@@ -284,6 +284,46 @@ func check(name string, x, y *stored, strictModified bool, contentDiffers func(r
 			}
 		}
 	}
+	// the modified rows as a consumer sees them: RowChangeReader pairs, per column, the new value
+	// with the old one (one value where they agree). Same column lists only.
+	if strictModified && model.RowsEqual(x.tbl.Columns, y.tbl.Columns) {
+		cd := diff.CompareColumns([2][]string{y.tbl.Columns, y.tbl.PrimaryKey()}, [2][]string{x.tbl.Columns, x.tbl.PrimaryKey()})
+		rcr, err := diff.NewRowChangeReader(x.db, y.db, x.tbl, y.tbl, cd)
+		if err != nil {
+			return 0, 0, 0, fmt.Errorf("%s: NewRowChangeReader: %v", name, err)
+		}
+		var keys []string
+		for _, d := range evs {
+			if d.Sum != nil && d.OldSum != nil {
+				rcr.AddRowDiff(d)
+				keys = append(keys, string(d.PK))
+			}
+		}
+		col := map[string]int{}
+		for i, n := range x.tbl.Columns {
+			col[n] = i
+		}
+		for n, k := range keys {
+			merged, err := rcr.Read()
+			if err != nil {
+				return 0, 0, 0, fmt.Errorf("%s: RowChangeReader.Read #%d: %v", name, n, err)
+			}
+			rx, ry := x.rows[inX[k]], y.rows[inY[k]]
+			if len(merged) != len(cd.Names) {
+				return 0, 0, 0, fmt.Errorf("%s: RowChangeReader row #%d has %d columns, layout has %d", name, n, len(merged), len(cd.Names))
+			}
+			for ci, cn := range cd.Names {
+				nv, ov := rx[col[cn]], ry[col[cn]]
+				want := []string{nv, ov}
+				if nv == ov {
+					want = []string{ov}
+				}
+				if !model.RowsEqual(merged[ci], want) {
+					return 0, 0, 0, fmt.Errorf("%s: modified key %q, column %q: RowChangeReader gives %q, the two rows hold new %q / old %q", name, model.KeyOf(rx, x.pk), cn, merged[ci], nv, ov)
+				}
+			}
+		}
+	}
 	for _, v := range got {
 		switch v {
 		case "added":
